@@ -82,6 +82,7 @@ type Worker struct {
 	curHarn   *harnessRun
 	curFrame  *frame
 	failStack string
+	sigs      []sigRec
 	cborBlobs map[*value]*cborRec
 	range256  int
 
@@ -434,6 +435,7 @@ func (w *Worker) resetPath(prefix []uint64) {
 	w.curFrame = nil
 	w.failStack = ""
 	w.cborBlobs = nil
+	w.sigs = nil
 }
 
 func (w *Worker) runPath(hr *harnessRun, prefix []uint64) {
@@ -640,6 +642,8 @@ func (w *Worker) symxCall(fr *frame, fn *ssa.Function, args []value) value {
 	case "Observe":
 		w.observed = append(w.observed, str(0)+"="+toString(args[1]))
 		return nil
+	case "HonestSignature":
+		return w.honestSignature(args[0].([]value), args[1].([]value))
 	case "IsConcrete":
 		_, sym := args[0].(iface).v.(*Term)
 		return !sym
